@@ -280,6 +280,12 @@ func analyze(cl *cluster) *analysis {
 		if rec.maxView[h] > 0 {
 			a.obs["heights_with_view_change"]++
 		}
+		if len(rec.commitViews[h]) > 1 {
+			a.obs["heights_with_commits_in_several_views"]++
+		}
+		if h > 1 && blocks[h-1] != nil && blocks[h-1].NextConsensus != b.NextConsensus {
+			a.obs["validator_set_changes"]++
+		}
 	}
 
 	// (3) inclusion: a block proposed at view 0 by primary p omits a
@@ -302,12 +308,14 @@ func analyze(cl *cluster) *analysis {
 			size += tx.Size()
 		}
 		view0, other := false, false
+		pn := -1 // the node that was primary
 		for _, pr := range rec.preps {
 			if pr.Height != h || pr.Validator != p {
 				continue
 			}
-			if pr.View == 0 && slices.Equal(pr.Txs, hashes) {
+			if pr.View == 0 && slices.Equal(pr.Txs, hashes) && (pn < 0 || pn == pr.Node) {
 				view0 = true
+				pn = pr.Node
 			} else {
 				other = true
 			}
@@ -320,7 +328,7 @@ func analyze(cl *cluster) *analysis {
 		for _, th := range rec.txOrder {
 			tr := rec.txs[th]
 			tr.mu.Lock()
-			at, pooled := tr.PooledAt[p]
+			at, pooled := tr.PooledAt[pn]
 			tr.mu.Unlock()
 			if !pooled || at+2 > h || tr.VUB < h {
 				continue
@@ -335,8 +343,8 @@ func analyze(cl *cluster) *analysis {
 				continue
 			}
 			a.add("inclusion:view0-proposal-omits-pooled-valid-tx",
-				fmt.Sprintf("block %d (primary %d, view 0, %d of max %d txs) omits tx %s pooled at node %d since its height %d, valid until %d", h, p, len(hashes), maxTx, th.StringLE(), p, at, tr.VUB),
-				map[string]any{"height": h, "primary": p, "block_txs": len(hashes), "max_tx": maxTx, "tx": th.StringLE(), "tx_hex": hex.EncodeToString(tr.Raw), "pooled_at_height": at, "valid_until": tr.VUB, "block_hex": hexBlock(vchain.EncodeBlock(b))})
+				fmt.Sprintf("block %d (primary index %d = node %d, view 0, %d of max %d txs) omits tx %s pooled at that node since its height %d, valid until %d", h, p, pn, len(hashes), maxTx, th.StringLE(), at, tr.VUB),
+				map[string]any{"height": h, "primary": p, "primary_node": pn, "block_txs": len(hashes), "max_tx": maxTx, "tx": th.StringLE(), "tx_hex": hex.EncodeToString(tr.Raw), "pooled_at_height": at, "valid_until": tr.VUB, "block_hex": hexBlock(vchain.EncodeBlock(b))})
 			break
 		}
 	}
@@ -366,9 +374,9 @@ func analyze(cl *cluster) *analysis {
 	return a
 }
 
-// pendingTxs lists pooled transactions that are still valid for the next
-// block and not on chain yet, judged on node ref.
-func (cl *cluster) pendingTxs() (r []util.Uint256) {
+// pendingTxs lists transactions pooled at one of the holders that are still
+// valid for the next block and not on chain yet (judged on the highest ledger).
+func (cl *cluster) pendingTxs(holders []bool) (r []util.Uint256) {
 	hs := cl.heights()
 	refIdx := 0
 	for i := range hs {
@@ -387,7 +395,12 @@ func (cl *cluster) pendingTxs() (r []util.Uint256) {
 	for _, tr := range list {
 		th := tr.Hash
 		tr.mu.Lock()
-		np := len(tr.PooledAt)
+		np := 0
+		for i := range tr.PooledAt {
+			if holders[i] {
+				np++
+			}
+		}
 		tr.mu.Unlock()
 		if np == 0 || tr.VUB < h+2 {
 			continue
